@@ -21,7 +21,7 @@ _BY_TARGET = {c.target: c for c in E.CONTRACTS}
 
 
 def _sub(text):
-    return re.sub(r'\bself\b', 'self.encoding', text)
+    return re.sub(r'''(?<!["'])\bself\b(?!["'])''', 'self.encoding', text)
 
 
 def _proof_clauses(d, skip=()):
